@@ -25,7 +25,8 @@ Definition frame_eqb (a b : frame) : bool :=
   && zl_eqb (f_output a) (f_output b) && dims_eqb (f_pad a) (f_pad b).
 Definition err_eqb (a b : err) : bool :=
   match a, b with
-  | EFinalized, EFinalized | EValue, EValue | EIncompat, EIncompat | EStopDefinite, EStopDefinite => true
+  | EFinalized, EFinalized | EValue, EValue | EIncompat, EIncompat | EStopDefinite, EStopDefinite
+  | ESizeRange, ESizeRange => true
   | ERender x, ERender y => x =? y
   | _, _ => false
   end.
